@@ -13,6 +13,7 @@
 From Coq Require Import List NArith ZArith Bool Lia String.
 From Verif Require Import Lib.Bytes Model.Syncer Generated.SyncConsts Generated.SyncFuns
      Proofs.SyncFuns Proofs.SyncerRanges Proofs.SyncerLemmas Proofs.Syncer Proofs.SyncerInstances.
+From Verif Require Import Model.TriggerSync Proofs.TriggerSyncLemmas Proofs.TriggerSync.
 Import ListNotations.
 Open Scope string_scope.
 Open Scope list_scope.
@@ -150,6 +151,23 @@ Proof.
            (multi_flavour sync_start depth range)); simpl; try reflexivity; lia.
 Qed.
 Print Assumptions C15_exact_when_canonical_multi_partial.
+
+(* the same for the multi-event syncer as the keyper runs it, with BOTH processors (registration
+   processor and trigger processor, Model/TriggerSync.v: extra RPC calls and an extra database
+   read per range, fired rows written in the same transaction, cascade on rollback), for every
+   matcher, every iteration order of the processor map and all fault streams.  No D10 exclusion is
+   needed for the registration table. *)
+Theorem C15_exact_when_canonical_multi_both_processors_partial :
+  forall (LogT : Type) (match_log : bytes -> LogT -> bool) (fl : flavour),
+    0 < fl_range fl -> 0 <= fl_depth fl -> 0 <= fl_first_start fl ->
+  forall (ops : list (top LogT)) (v : view (titem LogT)) (orders : list bool) (rpc db : list fault),
+    let history := ops ++ [TSync v orders rpc db] in
+    tuniverse_ok fl (top_views history) -> theads_ok match_log fl tginit history ->
+    let st := tg_st (tgrun match_log fl history) in
+    forall k h b, st_status (ts_core st) = Some (k, h) -> block_at v k = Some b -> bk_hash b = h ->
+      st_rows (ts_core st) = rows_of t_admissible v (fl_first_start fl) k.
+Proof. exact registrations_exact. Qed.
+Print Assumptions C15_exact_when_canonical_multi_both_processors_partial.
 
 (* instance: the registry syncer (identity_registered_event) as repaired (D8 fix), with the
    repository's constants *)
